@@ -5,6 +5,7 @@ import (
 	"fmt"
 	"math"
 	"regexp"
+	"runtime"
 	"runtime/debug"
 	"sort"
 	"strconv"
@@ -99,7 +100,16 @@ func safeEval(src string, budget time.Duration) (res evalResult, timedOut bool) 
 	case r := <-ch:
 		return r, false
 	case <-time.After(budget):
-		return evalResult{}, true
+		// where is it stuck?  The stacks of all goroutines tell a parse error being rendered
+		// (wbnf ParseError.Error / walkErrors, exponential) from anything else.
+		buf := make([]byte, 4<<20)
+		stack := string(buf[:runtime.Stack(buf, true)])
+		where := "elsewhere"
+		if strings.Contains(stack, "parser.ParseError.Error") || strings.Contains(stack, "parser.(*ParseError).Error") ||
+			strings.Contains(stack, "walkErrors") {
+			where = "parse-error-text"
+		}
+		return evalResult{site: where}, true
 	}
 }
 
@@ -108,6 +118,7 @@ func obs(r evalResult, timedOut bool, wantRepr bool) map[string]any {
 	switch {
 	case timedOut:
 		out["st"] = "timeout"
+		out["stuck_in"] = r.site
 	case r.panic != "":
 		out["st"] = "panic"
 		out["site"] = r.site
